@@ -474,6 +474,52 @@ def _check_dofpv(sh, n2p, np, uset, nodes, rows, form, r, tdesc, nreq):
     sh.check_equal("mkdofpv-ndarray-needs-p", st, "refuse", {"table": tdesc}, {})
 
 
+def _dofpv_after_edit(sh, n2p, np, uset, nodes, form, r, tdesc):
+    """History on ONE table object: look-ups, an in-place edit of the table (a node moved
+    to another base set / ndarray rows reordered), look-ups again.  The answers must
+    follow the table as it is now (anything remembered from the earlier calls about the
+    same object would be stale)."""
+    from vf.oracles import sets
+    if form != "nastran" and len(nodes) >= 2:
+        j = int(r.integers(0, len(nodes)))
+        i, kind, letters = nodes[j]
+        cur = set(letters)
+        cand = [b for b in sets.BASE if b not in cur]
+        new = cand[int(r.integers(0, len(cand)))]
+        word = int(n2p.make_uset([[1, 0]], new)["nasset"].iloc[0])
+        ids = uset.index.get_level_values("id") == i
+        uset.loc[ids, "nasset"] = word                      # in place, same object
+        nodes2 = list(nodes)
+        nodes2[j] = (i, kind, new)
+        sh.count("cell:dofpv-history-set-edit")
+        _check_dofpv(sh, n2p, np, uset, nodes2, _rows(nodes2), form, r,
+                     dict(tdesc, edited_node=i, new_set=new), 8)
+    # ndarray table: same object, rows permuted in place between two look-ups
+    rows = _rows(nodes)
+    if len(rows) >= 2:
+        tab = np.array([[i, d] for i, d, _ in rows], float)
+        want = list(range(len(rows)))
+        sh.count("mon:dofpv-history-ndarray")
+        for rep in range(2):
+            req = [[rows[k][0], rows[k][1]] for k in want]
+            try:
+                pv = [int(x) for x in n2p.mkdofpv(tab, "p", req)[0]]
+            except Exception as e:
+                pv = repr(e)
+            inv = [0] * len(want)
+            if rep == 0:
+                exp = want
+            else:
+                exp = [int(np.nonzero(perm == k)[0][0]) for k in want]
+            if pv != exp:
+                sh.violation("dofpv-history-ndarray", {"table": tdesc, "rep": rep},
+                             {"got": pv, "want": exp}, {"fn": "mkdofpv", "history": True})
+                break
+            perm = r.permutation(len(rows))
+            tab[:] = tab[perm]
+        sh.count("cell:dofpv-history-ndarray-permuted")
+
+
 # ------------------------------------------------------------------------------------
 # upstream partition vectors on a synthetic two-level superelement tree
 # ------------------------------------------------------------------------------------
@@ -584,14 +630,25 @@ def _check_mat_intersect(sh, locate, np, r, i):
     r1 = int(r.integers(0, 13)) if r.random() < 0.9 else 0
     r2 = int(r.integers(0, 13)) if r.random() < 0.9 else 0
     alpha = int(r.integers(2, 5))
-    dts = ["int64", "int32", "float64", "float32"]
-    dt1, dt2 = dts[int(r.integers(0, 4))], dts[int(r.integers(0, 4))]
+    dts = ["int64", "int32", "float64", "float32", "int8"]
+    dt1, dt2 = dts[int(r.integers(0, 5))], dts[int(r.integers(0, 5))]
     if cls != "clean":
         dt1 = dt2 = "float64"
-    vals = np.array([0, 1, -1, 2.5, 7])[:alpha] if "float" in dt1 and "float" in dt2 \
-        else np.arange(alpha) - 1
-    D1 = vals[r.integers(0, alpha, (r1, c))].astype(dt1)
-    D2 = vals[r.integers(0, alpha, (r2, c))].astype(dt2)
+
+    def pool(dt):
+        # each side draws from what ITS dtype can hold exactly: fractional values on a
+        # float side and values >= 256 on a wide-integer side have no equal on a
+        # narrower side and must never be reported as found there
+        if "float" in dt:
+            v = [0, 1, -1, 2.5, 7, 1.5]
+        elif dt == "int8":
+            v = [0, 1, -1, 2, 7, 44]
+        else:
+            v = [0, 1, -1, 2, 7, 257, 300]
+        return np.array(v, float)[:max(alpha, 4) + int(r.integers(0, 3))]
+    v1, v2 = pool(dt1), pool(dt2)
+    D1 = v1[r.integers(0, len(v1), (r1, c))].astype(dt1)
+    D2 = v2[r.integers(0, len(v2), (r2, c))].astype(dt2)
     if cls == "signedzero":
         D1[D1 == 0] = -0.0
     if cls == "nan":
@@ -962,6 +1019,12 @@ def run_shard(sh, params):
             except Exception as e:      # harness-side surprise: report, keep going
                 sh.violation("exception:dofpv-harness", {"table": tdesc, "form": form},
                              {"exc": repr(e)}, {"form": form})
+            try:
+                _dofpv_after_edit(sh, n2p, np, uset, nodes, form, r, tdesc)
+            except Exception as e:
+                sh.violation("exception:dofpv-harness", {"table": tdesc, "form": form,
+                                                         "history": True},
+                             {"exc": repr(e)}, {"form": form})
     nloc = 9000 if tier == "quick" else 200000
     for i in range(s, nloc, ns):
         r = core.rng(sh.seed, "C18", "locate", i)
@@ -986,6 +1049,7 @@ MANDATORY_MON = [
     "base-assignment", "superset-union", "mksetpv-partition", "mksetpv-refusal",
     "expanddof", "expanddof-refusal", "mkdofpv-positions", "mkdofpv-outdof",
     "mkdofpv-index-relation", "mkdofpv-strict-refusal", "mkdofpv-ndarray-needs-p",
+    "dofpv-history-ndarray",
     "mat_intersect-relation", "mat_intersect-maximal", "find_rows", "find_vals",
     "find_duplicates", "find_subseq", "flippv-complement", "index2bool", "index2slice",
     "list_intersect", "merge_lists", "find_unique", "upasetpv-image", "upqsetpv-image",
